@@ -384,6 +384,14 @@ class VG:
         start = 1 if selfid is not None else 0
         for i, (pid, name, ty) in enumerate(ids[start:]):
             if pid is None:
+                # a destructuring parameter `(a, b): (A, B)`: bind its sub-patterns
+                pat_ = fn.params[start + i]['pat'] if hasattr(fn, 'params') and start + i < len(fn.params) else None
+                if pat_ is not None:
+                    if args is not None and i < len(args):
+                        self.bind_pat(pat_, args[i], fr)
+                    else:
+                        for bid, bname in _pat_ids(pat_):
+                            fr.locals[bid] = ('arg', bname)
                 continue
             if args is not None and i < len(args):
                 fr.locals[pid] = args[i]
